@@ -498,6 +498,10 @@ impl<T: Clone + Eq + Debug + Default> WrappedBlock<T> {
                     }));
                     lineleft -= w.saturating_sub(wpos);
                 }
+            } else {
+                // Keep zero-width markers (fragment starts) with the text
+                // which follows them.
+                self.line.push(element);
             }
         }
         Ok(())
